@@ -573,6 +573,59 @@ func checkEnvLoader(rep *core.Report, r4 *core.RuleRun, fn *ssa.Function) {
 		loopOK = startsAt0 && inc1 && bounded
 	}
 	r4.Check(loopOK, name+":all-fields", fn.Pos(), "index runs 0..NumField()-1 by 1", "loader does not iterate over every field of the options struct")
+	// ... and no iteration ends the whole loop: a return inside the loop body is only allowed behind a call that does not
+	// come back (log.Fatal, os.Exit, panic). A return after a merely logged parse error skips every later field.
+	if lp := core.LoopOf(fn, getenv); lp != nil {
+		exitSucc := map[*ssa.BasicBlock]bool{}
+		for _, sc := range lp.Header.Succs {
+			if !lp.Blocks[sc] {
+				exitSucc[sc] = true
+			}
+		}
+		bad := token.NoPos
+		seen := map[*ssa.BasicBlock]bool{}
+		var stack []*ssa.BasicBlock
+		for b := range lp.Blocks {
+			if b == lp.Header {
+				continue
+			}
+			for _, sc := range b.Succs {
+				if !lp.Blocks[sc] {
+					stack = append(stack, sc)
+				}
+			}
+		}
+		for len(stack) > 0 {
+			b := stack[len(stack)-1]
+			stack = stack[:len(stack)-1]
+			if seen[b] || lp.Blocks[b] {
+				continue
+			}
+			seen[b] = true
+			noReturn := false
+			for _, ins := range b.Instrs {
+				if c, ok := ins.(ssa.CallInstruction); ok {
+					n := calleeName(c)
+					if strings.HasPrefix(n, "log.Fatal") || strings.HasPrefix(n, "(*log.Logger).Fatal") || n == "os.Exit" || strings.HasPrefix(n, "log.Panic") || strings.HasPrefix(n, "(*log.Logger).Panic") {
+						noReturn = true
+					}
+					if bi, isB := c.Common().Value.(*ssa.Builtin); isB && bi.Name() == "panic" {
+						noReturn = true
+					}
+				}
+				if _, isRet := ins.(*ssa.Return); isRet && !noReturn {
+					bad = ins.Pos()
+				}
+			}
+			if noReturn {
+				continue
+			}
+			stack = append(stack, b.Succs...)
+		}
+		_ = exitSucc
+		r4.Check(bad == token.NoPos, name+":no-early-return", fn.Pos(), "the field loop is left only at its end (or through a fatal exit)",
+			"the loader can return from inside the field loop ("+rep.Prog.Pos(bad)+") without terminating the process: every option declared after the field being processed keeps its default although a valid VFLOW_ variable is set for it")
+	}
 	// setters
 	want := map[string]int64{"SetString": int64(reflect.String), "SetInt": int64(reflect.Int), "SetBool": int64(reflect.Bool)}
 	found := map[string]bool{}
